@@ -353,7 +353,46 @@ def recipes(tier='quick'):
         lambda: odl.trafos.WaveletTransform(odl.uniform_discr(0, 1, 8), 'db2', nlevels=1, pad_mode='pywt_periodic'))
     recipes.n_first = len(R)           # recipes of the first catalogue version (opcatalog derives all forms of these)
     wide_recipes(tier, add)
+    mixed_field_expr_recipes(tier, add)
     return R
+
+
+def mixed_field_expr_recipes(tier, add):
+    """Arithmetic combinations around operators BETWEEN a real and a complex space (ComplexEmbedding, RealPart,
+    ImagPart): vector / scalar multiples on either side, sums, compositions.  The conjugations of the adjoint rules
+    depend on the field of the range resp. domain of the wrapped operator, which differ here."""
+    spaces = [('rn', odl.rn(3), odl.cn(3)), ('rn-const', odl.rn(3, weighting=2.0), odl.cn(3, weighting=2.0)),
+              ('discr', odl.uniform_discr(0, 2, 4), odl.uniform_discr(0, 2, 4, dtype=complex))]
+    if tier == 'thorough':
+        spaces.append(('rn-array', odl.rn(3, weighting=[1.0, 2.0, 0.5]), odl.cn(3, weighting=[1.0, 2.0, 0.5])))
+    cv, rv = [1 + 2j, -1j, 2 - 1j, 0.5j], [2, -1, 0.5, 3]
+    for sn, rsp, csp in spaces:
+        bases = [('embed', lambda rsp=rsp, csp=csp: odl.ComplexEmbedding(rsp)),
+                 ('embed-cscalar', lambda rsp=rsp, csp=csp: odl.ComplexEmbedding(rsp, scalar=1 - 2j)),
+                 ('realpart', lambda rsp=rsp, csp=csp: odl.RealPart(csp)),
+                 ('imagpart', lambda rsp=rsp, csp=csp: odl.ImagPart(csp))]
+        for bn, mk in bases:
+            def vec_in(sp):
+                return _v(sp, rv if sp.is_real else cv)
+
+            def sc_in(sp):
+                # a complex scalar multiple of an operator between a real and a complex space has no adjoint in ODL
+                # (conj(a) * A.adjoint is refused: TypeError) - the property only speaks about operators that return one
+                return -2.0
+            wraps = {
+                'lvec': lambda mk=mk: vec_in(mk().range) * mk(),
+                'rvec': lambda mk=mk: mk() * vec_in(mk().domain),
+                'lscal': lambda mk=mk: sc_in(mk().range) * mk(),
+                'rscal': lambda mk=mk: mk() * sc_in(mk().domain),
+                'sum': lambda mk=mk: mk() + 2 * mk(),
+                'comp-left': lambda mk=mk: odl.MultiplyOperator(vec_in(mk().range)) * mk(),
+                'comp-right': lambda mk=mk: mk() * odl.MultiplyOperator(vec_in(mk().domain)),
+                'lvec-comp': lambda mk=mk: vec_in(mk().range) * (odl.MultiplyOperator(vec_in(mk().range)) * mk()),
+                'lvec-rvec': lambda mk=mk: vec_in(mk().range) * (mk() * vec_in(mk().domain)),
+                'neg-lvec': lambda mk=mk: -(vec_in(mk().range) * mk()),
+            }
+            for wn, fn in sorted(wraps.items()):
+                add('expr-mixed-field', {'space': sn, 'base': bn, 'wrap': wn}, fn)
 
 
 # ====================================================================== systematic widening
